@@ -57,9 +57,10 @@ Qed.
 
 Lemma pstep_length limit l e : (length l <= limit)%nat -> (length (fst (pstep limit l e)) <= limit)%nat.
 Proof.
-  intros H. destruct e as [h v|p|hs]; cbn [pstep fst].
+  intros H. destruct e as [h v|p|hs|p]; cbn [pstep fst].
   - destruct v; cbn [send]; [apply push_length; exact H | exact H].
   - unfold broadcast. cbn [fst]. rewrite map_length. exact H.
+  - exact H.
   - exact H.
 Qed.
 
@@ -115,10 +116,11 @@ Proof. unfold broadcast. cbn [snd]. rewrite map_map. apply map_ext. intros e. de
 
 Lemma pstep_distinct limit l e : distinct l -> distinct (fst (pstep limit l e)).
 Proof.
-  intros D. destruct e as [h v|p|hs]; cbn [pstep fst].
+  intros D. destruct e as [h v|p|hs|p]; cbn [pstep fst].
   - destruct v; cbn [send]; [apply push_distinct; exact D | exact D].
   - unfold distinct. change (fst (let '(hs, l') := broadcast p l in (l', map (fun h => (p, h)) hs))) with (snd (broadcast p l)).
     rewrite broadcast_hashes. exact D.
+  - exact D.
   - exact D.
 Qed.
 
@@ -176,10 +178,11 @@ Qed.
 Theorem pstep_keeps_announced limit l e p k :
   distinct l -> announced l p k -> in_pool (fst (pstep limit l e)) k -> announced (fst (pstep limit l e)) p k.
 Proof.
-  intros D A I. destruct e as [h v|q|hs]; cbn [pstep fst] in *.
+  intros D A I. destruct e as [h v|q|hs|q]; cbn [pstep fst] in *.
   - destruct v; cbn [send] in *; [apply push_keeps_announced; assumption | exact A].
   - change (fst (let '(hs, l') := broadcast q l in (l', map (fun h => (q, h)) hs))) with (snd (broadcast q l)).
     apply broadcast_keeps_announced. exact A.
+  - exact A.
   - exact A.
 Qed.
 
@@ -187,7 +190,7 @@ Qed.
 Theorem pstep_announces_fresh limit l e p h :
   distinct l -> In (p, h) (snd (pstep limit l e)) -> in_pool l h /\ ~ announced l p h /\ announced (fst (pstep limit l e)) p h.
 Proof.
-  intros D H. destruct e as [h0 v|q|hs]; cbn [pstep snd] in H; try destruct H.
+  intros D H. destruct e as [h0 v|q|hs|q']; cbn [pstep snd] in H; try destruct H.
   destruct (broadcast q l) as [hs l'] eqn:B. cbn [snd fst] in *. apply in_map_iff in H. destruct H as (x & E & Hx). inversion E; subst.
   assert (Hx' : In h (fst (broadcast p l))) by (rewrite B; exact Hx).
   destruct (broadcast_only_unannounced _ _ _ D Hx') as [I N]. split; [exact I|]. split; [exact N|].
